@@ -256,6 +256,28 @@ func (fr *frame) run() {
 	}
 }
 
+// storeInPlace keeps the identity of struct fields / array elements (pointers into them stay valid).
+func storeInPlace(addr *Value, v Value) {
+	switch rhs := v.(type) {
+	case Struct:
+		if lhs, ok := (*addr).(Struct); ok && len(lhs) == len(rhs) {
+			for i := range lhs {
+				storeInPlace(&lhs[i], rhs[i])
+			}
+			return
+		}
+	case Array:
+		if lhs, ok := (*addr).(Array); ok && len(lhs) == len(rhs) {
+			tmp := copyVal(rhs).(Array)
+			for i := range lhs {
+				storeInPlace(&lhs[i], tmp[i])
+			}
+			return
+		}
+	}
+	*addr = copyVal(v)
+}
+
 func deref(t types.Type) types.Type {
 	if p, ok := t.Underlying().(*types.Pointer); ok {
 		return p.Elem()
@@ -315,7 +337,7 @@ func (fr *frame) visit(instr ssa.Instruction) bool {
 		if p.p == nil {
 			in.runtimePanic("nil pointer dereference (store)")
 		}
-		*p.p = copyVal(fr.get(instr.Val))
+		storeInPlace(p.p, fr.get(instr.Val))
 	case *ssa.If:
 		c := fr.get(instr.Cond).(*Term)
 		succ := 1
